@@ -30,7 +30,7 @@ structure Good (n buf : Nat) (t : Ft) (k : Nat) (pk : List (List Nat)) (orig : L
   hsizes : SizesOk buf pk
   hdata : t.keep = true → t.data ++ pk.flatten = orig
   running : pk ≠ [] → t.state = .started ∧ t.recvdPackages = k - 1 ∧
-      (t.fileSize = 0 ∨ t.fileSize = t.recvdPayload + pk.flatten.length)
+      t.fileSize = t.recvdPayload + pk.flatten.length
   finished : pk = [] → t.state = .complete
 
 theorem learn_id (t : Ft) (pkg len : Nat) (h : t.bufferSize ≠ 0) : t.learn pkg len = t := by
@@ -97,12 +97,10 @@ theorem addFlda_next (n buf : Nat) (t : Ft) (k : Nat) (p : List Nat) (pk : List 
   | nil =>
     have hkn : k = n := by simp at hcov; omega
     have hgt : decide (k + 1 > n) = true := by simp; omega
-    have hfs : (u.fileSize == 0 || u.fileSize == u.recvdPayload) = true := by
+    have hfs : (u.fileSize == u.recvdPayload) = true := by
       rw [u_fs, u_pay]
-      simp only [Bool.or_eq_true, beq_iff_eq]
-      rcases hsz with h | h
-      · left; exact h
-      · right; rw [h, hflat]; simp
+      simp only [beq_iff_eq]
+      rw [hsz, hflat]; simp
     simp only [hgt, hfs, Bool.and_self, if_true]
     exact { hbuf := u_buf, hbufpos := g.hbufpos, hnr := rfl, hnext := rfl, hk := by omega,
             hcover := by simp; omega, hsizes := trivial,
@@ -128,10 +126,7 @@ theorem addFlda_next (n buf : Nat) (t : Ft) (k : Nat) (p : List Nat) (pk : List 
             running := by
               intro _
               refine ⟨u_state, by rw [u_recv]; omega, ?_⟩
-              rw [u_fs, u_pay]
-              rcases hsz with h | h
-              · left; exact h
-              · right; rw [h, hflat]; omega,
+              rw [u_fs, u_pay, hsz, hflat]; omega,
             finished := by intro h; cases h }
 
 theorem feed_inorder (n buf : Nat) (orig : List Nat) (k : Nat) (pk : List (List Nat)) (evs : List (Nat × List Nat))
